@@ -1,7 +1,8 @@
 (* C18 — property theorems only. Each is closed by [exact] of a lemma from Proofs*.v and followed
    by Print Assumptions. DB and Tok are arbitrary types; migrations are arbitrary step functions. *)
 From Coq Require Import List NArith Bool Arith Sorted.
-From V Require Import C18.Model C18.Proofs C18.Proofs_BT.
+From Coq Require Import Lia ZifyN ZifyNat ZifyBool.
+From V Require Import C18.Model C18.Proofs C18.Proofs_BT C18.Proofs_Resume.
 Import ListNotations.
 
 (* A migration is recorded as applied only after its Migrate returned (nil, nil): in the event log
@@ -73,6 +74,38 @@ Theorem C18_accepted_sound :
 Proof. exact accepted_sound_lemma. Qed.
 Print Assumptions C18_accepted_sound.
 
+(* resume_same_db, runner level. For every schedule of process lifetimes — each cancelled after
+   an arbitrary number of writes and/or killed after an arbitrary number of writes, optional flags
+   fixed — a final uninterrupted run reaches the database of an uninterrupted run from the start,
+   namely the fold of the migrations' completion functions over the pending list; provided every
+   registered migration is resumable (its steps keep its completion function [spec i] invariant,
+   keep every valid resume token valid, and it finishes exactly in [spec i]; never (nil, ctx.Err()),
+   never a failure). Fuel: the statement is about runs that return ROk, i.e. did not run out. *)
+Theorem C18_resume_same_db :
+  forall (DB Tok : Type) (es : list (@migration DB Tok)) (fuel : nat) (enabled : N)
+         (spec : nat -> DB -> DB) (good : nat -> DB -> option Tok -> Prop),
+  (forall i db, good i db None) ->
+  (forall i m, nth_error es i = Some m ->
+     forall db t c db' o, good i db t -> mig_step m db t c = (db', o) ->
+       spec i db' = spec i db /\ (forall s, good i db s -> good i db' s) /\
+       match o with
+       | Done => db' = spec i db
+       | Suspended t' => good i db' (Some t')
+       | _ => False
+       end) ->
+  forall (bs : list boot) (s0 : @pstate DB Tok) st_ref st_fin,
+  (forall j, lookup (inter s0) j = None) ->
+  Forall (fun b => b_enabled b = enabled) bs ->
+  run_boot es fuel enabled None s0 = (st_ref, ROk) ->
+  run_boot es fuel enabled None (run_schedule es fuel bs s0) = (st_fin, ROk) ->
+  pdb (ms_p st_fin) = pdb (ms_p st_ref) /\
+  pdb (ms_p st_ref) =
+    fold_left (fun d i => spec i d) (bits_of (vdiff (target_version es enabled) (cur s0))) (pdb s0) /\
+  bits_of (vdiff (target_version es enabled) (cur (ms_p st_fin))) = [] /\
+  bits_of (vdiff (target_version es enabled) (cur (ms_p st_ref))) = [].
+Proof. exact resume_same_db_lemma. Qed.
+Print Assumptions C18_resume_same_db.
+
 (* blocktransactions, block-granularity model: an uninterrupted run on any well-formed old-layout
    database in which every aligned range of 10 blocks holds a transaction serves every block
    (empty ones included) through the new accessor with its original content, old buckets empty *)
@@ -119,6 +152,44 @@ Example hypotheses_satisfiable :
   let '(st', r') := run_boot [script 3 false; script 2 false] 20 0 None (ms_p st) in
   r' = ROk /\ cur (ms_p st') = 3%N /\ inter (ms_p st') = [] /\ invocations (ms_log st') = [0; 1].
 Proof. vm_compute. repeat split; reflexivity. Qed.
+
+(* the hypotheses of C18_resume_same_db hold for the two scripted migrations above *)
+Example resumable_satisfiable :
+  let total := fun i : nat => match i with O => 3%N | _ => 2%N end in
+  let spec := fun (i : nat) (db : N) => N.max db (total i) in
+  let good := fun (i : nat) (_ : N) (t : option N) => match t with Some p => (p < total i)%N | None => True end in
+  (forall i db, good i db None) /\
+  (forall i m, nth_error [script 3 false; script 2 false] i = Some m ->
+     forall db t c db' o, good i db t -> mig_step m db t c = (db', o) ->
+       spec i db' = spec i db /\ (forall s, good i db s -> good i db' s) /\
+       match o with
+       | Done => db' = spec i db
+       | Suspended t' => good i db' (Some t')
+       | _ => False
+       end).
+Proof.
+  intros total spec good. split. { intros; exact I. }
+  intros i m Hm db t c db' o Hg Hs.
+  assert (Hm' : m = script (total i) false /\ (total i = 3 \/ total i = 2)%N).
+  { destruct i as [|[|i]]; simpl in Hm; inversion Hm; subst; simpl; auto. destruct i; discriminate. }
+  destruct Hm' as [-> Ht]. unfold script in Hs; simpl in Hs. subst spec good; simpl in *.
+  destruct c.
+  - inversion Hs; subst. split; auto. split; auto. destruct t; simpl in *; lia.
+  - destruct (N.leb_spec (total i) (match t with Some t0 => t0 | None => 0 end + 1)%N);
+      inversion Hs; subst; (split; [|split; auto]); destruct t; simpl in *; lia.
+Qed.
+
+(* and a schedule with a cancellation, a crash and a restart ends where the straight run ends *)
+Example resume_same_db_instance :
+  let es := [script 3 false; script 2 false] in
+  let bs := [ {| b_enabled := 0; b_cancel := Some 2; b_crash := None |};
+              {| b_enabled := 0; b_cancel := None; b_crash := Some 2 |};
+              {| b_enabled := 0; b_cancel := Some 1; b_crash := Some 1 |} ] in
+  snd (run_boot es 20 0 None s0) = ROk /\
+  snd (run_boot es 20 0 None (run_schedule es 20 bs s0)) = ROk /\
+  pdb (ms_p (fst (run_boot es 20 0 None (run_schedule es 20 bs s0)))) = pdb (ms_p (fst (run_boot es 20 0 None s0))) /\
+  run_schedule es 20 bs s0 <> s0.
+Proof. vm_compute. repeat split; try reflexivity. discriminate. Qed.
 
 (* well_behaved is needed: the runner sets the applied bit for (nil, ctx.Err()) — cancelled after
    the first unit of three, bit 0 set, one unit done, Run returns the context's error *)
